@@ -14,6 +14,7 @@ import (
 	"errors"
 	"fmt"
 	"strings"
+	"sync/atomic"
 
 	"github.com/blevesearch/bleve/v2"
 	"github.com/blevesearch/bleve/v2/index/scorch"
@@ -27,7 +28,7 @@ import (
 type env struct {
 	c      *drv.Ctx
 	idx    bleve.Index
-	closed *bool // Close has returned
+	closed *atomic.Bool // Close has returned
 	cancel context.CancelFunc
 	ctx    context.Context
 }
@@ -59,15 +60,15 @@ func judge(e *env, what string, startedAfterClose bool, err error) string {
 
 var ops = []op{
 	{"index", func(e *env) string {
-		was := *e.closed
+		was := e.closed.Load()
 		return judge(e, "Index", was, e.idx.Index("a", map[string]interface{}{"t": "hello world"}))
 	}},
 	{"delete", func(e *env) string {
-		was := *e.closed
+		was := e.closed.Load()
 		return judge(e, "Delete", was, e.idx.Delete("seed"))
 	}},
 	{"batch", func(e *env) string {
-		was := *e.closed
+		was := e.closed.Load()
 		b := e.idx.NewBatch()
 		b.Index("b1", map[string]interface{}{"t": "hello"})
 		b.Delete("seed2")
@@ -75,7 +76,7 @@ var ops = []op{
 		return judge(e, "Batch", was, e.idx.Batch(b))
 	}},
 	{"search", func(e *env) string {
-		was := *e.closed
+		was := e.closed.Load()
 		res, err := e.idx.Search(bleve.NewSearchRequest(bleve.NewMatchQuery("hello")))
 		if err == nil && res.Total < 1 && !was {
 			// seed documents contain "hello" unless deleted by a concurrent op; at least seed2/seed remain
@@ -83,13 +84,13 @@ var ops = []op{
 		return judge(e, "Search", was, err)
 	}},
 	{"search-cancel", func(e *env) string {
-		was := *e.closed
+		was := e.closed.Load()
 		req := bleve.NewSearchRequest(bleve.NewMatchQuery("hello"))
 		_, err := e.idx.SearchInContext(e.ctx, req)
 		if err != nil && (errors.Is(err, context.Canceled) || strings.Contains(err.Error(), "context canceled")) {
 			// the index must remain usable
-			if !*e.closed {
-				was2 := *e.closed
+			if !e.closed.Load() {
+				was2 := e.closed.Load()
 				_, err2 := e.idx.Search(bleve.NewSearchRequest(bleve.NewMatchQuery("hello")))
 				judge(e, "Search-after-cancel", was2, err2)
 			}
@@ -102,17 +103,17 @@ var ops = []op{
 		return "cancel"
 	}},
 	{"document", func(e *env) string {
-		was := *e.closed
+		was := e.closed.Load()
 		_, err := e.idx.Document("seed")
 		return judge(e, "Document", was, err)
 	}},
 	{"doccount", func(e *env) string {
-		was := *e.closed
+		was := e.closed.Load()
 		_, err := e.idx.DocCount()
 		return judge(e, "DocCount", was, err)
 	}},
 	{"fielddict", func(e *env) string {
-		was := *e.closed
+		was := e.closed.Load()
 		fd, err := e.idx.FieldDict("t")
 		if err == nil {
 			n := 0
@@ -149,7 +150,7 @@ var ops = []op{
 		return "ForceMerge:ok"
 	}},
 	{"copyto", func(e *env) string {
-		was := *e.closed
+		was := e.closed.Load()
 		ic, ok := e.idx.(bleve.IndexCopyable)
 		if !ok {
 			return "CopyTo:n/a"
@@ -161,7 +162,7 @@ var ops = []op{
 		return judge(e, "CopyTo", was, err)
 	}},
 	{"close", func(e *env) string {
-		was := *e.closed
+		was := e.closed.Load()
 		err := e.idx.Close()
 		if was {
 			if err == nil || !isClosedErr(err) {
@@ -172,7 +173,7 @@ var ops = []op{
 		if err != nil && !isClosedErr(err) {
 			e.c.Fail("error:Close", "Close: %v", err)
 		}
-		*e.closed = true
+		e.closed.Store(true)
 		// Close has returned: let everything that can still run finish (helper goroutines that were
 		// spawned but never scheduled exit on their own), then nothing of the index may be left
 		// alive — a background loop still blocked or running here was not stopped by Close.
@@ -212,7 +213,7 @@ func body(engine string, names []string) func(c *drv.Ctx) {
 			idx.Index("seed", map[string]interface{}{"t": "hello"})
 			idx.Index("seed2", map[string]interface{}{"t": "hello there"})
 		})
-		closed := false
+		var closed atomic.Bool
 		ctx, cancel := context.WithCancel(context.Background())
 		e := &env{c: c, idx: idx, closed: &closed, ctx: ctx, cancel: cancel}
 		var wg vrt.WaitGroup
@@ -229,7 +230,7 @@ func body(engine string, names []string) func(c *drv.Ctx) {
 		c.Observe(strings.Join(res, " "))
 		vrt.Free(func() {
 			cancel()
-			if !closed {
+			if !closed.Load() {
 				// index still open: it must be usable, then close cleanly
 				if _, err := idx.DocCount(); err != nil {
 					c.Fail("unusable-after-ops", "DocCount after the operations: %v", err)
@@ -237,7 +238,7 @@ func body(engine string, names []string) func(c *drv.Ctx) {
 				if err := idx.Close(); err != nil {
 					c.Fail("error:Close", "final Close: %v", err)
 				}
-				closed = true
+				closed.Store(true)
 			}
 			// everything after Close reports closed
 			if _, err := idx.DocCount(); !isClosedErr(err) {
